@@ -11,6 +11,10 @@ let () =
   let cases_out = (try Some (open_out (Sys.getenv "VERIF_CASES_OUT")) with Not_found -> None) in
   let cases_every = (try int_of_string (Sys.getenv "VERIF_CASES_EVERY") with Not_found -> 50) in
   let eligible = ref 0 and emitted = ref 0 in
+  let spec_emitted = ref 0 in
+  (match cases_out with
+   | Some oc -> Driver.spec_case_hook := (fun t -> if !spec_emitted < 40 then (incr spec_emitted; Printf.fprintf oc "  (%s);\n" t))
+   | None -> ());
   (try
      while true do
        let line = input_line stdin in
